@@ -311,5 +311,7 @@ pub fn generate(rng: &mut Rng, tier: Tier, avoid: bool) -> C08 {
             schedules.push(Schedule { no_restart: false, restage_rev: rng.chance(1, 2), defer_staging: mode == Mode::Ticketed && rng.chance(1, 3), epochs });
         }
     }
-    C08 { world, mode, intents, probes, perms, n_epochs, elig, restarts, schedules }
+    let inbox_tape = if rng.chance(1, 2) { super::inbox::generate(rng, intents.len()) } else { Default::default() };
+    let graph_inbox = if rng.chance(1, 4) { super::graph_inbox::generate(rng) } else { Default::default() };
+    C08 { world, mode, intents, probes, perms, n_epochs, elig, restarts, schedules, inbox_tape, graph_inbox }
 }
